@@ -15,6 +15,7 @@ import (
 	colltypes "github.com/KiraCore/sekai/x/collectives/types"
 	govkeeper "github.com/KiraCore/sekai/x/gov/keeper"
 	govtypes "github.com/KiraCore/sekai/x/gov/types"
+	l2types "github.com/KiraCore/sekai/x/layer2/types"
 	spendingtypes "github.com/KiraCore/sekai/x/spending/types"
 	sdk "github.com/cosmos/cosmos-sdk/types"
 )
@@ -325,6 +326,133 @@ func c08CollectiveElectorate(r *Rec) {
 		r.Case(fmt.Sprintf("collective-electorate/%d/%d/%d/%s/%d/%s", nRole, dup, extra, qs, v, resName(result)), true)
 		if result != want && !(want == govtypes.Enactment && result == govtypes.Passed) {
 			r.Fail("C08/collective-electorate/result-against-distinct-owners", fmt.Sprintf("%s (%d distinct owners): the proposal came out as %s, by the stored collective it is %s", label, n, resName(result), resName(want)), nil)
+		}
+	}
+}
+
+// c08DappElectorate: the controllers of a dApp vote on the update of their dApp (UpsertDapp proposal): quorum, voting period
+// and electorate of the STORED dApp, not of the record the proposal would install.
+func c08DappElectorate(r *Rec) {
+	r.Mark("dapp electorate")
+	cases := 4
+	if r.Tier == "thorough" {
+		cases = 30
+	}
+	quorums := []string{"0.33", "0.5", "0.75", "1", "0.25"}
+	var w *World
+	for ci := 0; ci < cases; ci++ {
+		if ci%4 == 0 {
+			w = NewWorld(WorldOpts{NAcc: 7, NVal: 1, SudoAccs: []int{6}})
+		}
+		name := fmt.Sprintf("de%d", ci)
+		n := 2 + r.Rng.Intn(4)
+		qs := quorums[r.Rng.Intn(len(quorums))]
+		qp := quorums[r.Rng.Intn(len(quorums))]
+		v := r.Rng.Intn(n + 1)
+		if ci%2 == 1 { // turnout between the two quorums
+			qs, qp, n, v = "0.75", "0.25", 4, 1
+		}
+		label := fmt.Sprintf("dApp %s: %d controllers, stored quorum %s, proposed quorum %s, %d yes votes", name, n, qs, qp, v)
+		var ctrl []string
+		for i := 0; i < n; i++ {
+			ctrl = append(ctrl, w.addrs[i].String())
+		}
+		mk := func(q string, controllers []string, desc string) l2types.Dapp {
+			return l2types.Dapp{Name: name, Denom: "d" + name, Description: desc, Website: "w", Logo: "l", Social: "s", Docs: "x",
+				Controllers:   l2types.Controllers{Whitelist: l2types.AccountRange{Addresses: controllers}},
+				Pool:          l2types.LpPoolConfig{Ratio: sdk.OneDec(), Drip: 1},
+				Issuance:      l2types.IssuanceConfig{Premint: sdk.ZeroInt(), Postmint: sdk.ZeroInt()},
+				UpdateTimeMax: 60, ExecutorsMin: 1, ExecutorsMax: 3, VerifiersMin: 1, Status: l2types.Active,
+				TotalBond: sdk.NewInt64Coin("ukex", 0), VoteQuorum: sdk.MustNewDecFromStr(q), VotePeriod: 600, VoteEnactment: 300, PoolFee: sdk.ZeroDec()}
+		}
+		var pid uint64
+		setupErr := ""
+		br := w.Block(nil, BlockOpts{Dt: 6 * time.Second, Mid: func(ctx sdk.Context) {
+			gk := w.app.CustomGovKeeper
+			for i := 0; i < 6; i++ {
+				if _, has := gk.GetNetworkActorByAddress(ctx, w.addrs[i]); !has {
+					gk.SaveNetworkActor(ctx, govtypes.NewDefaultActor(w.addrs[i]))
+				}
+			}
+			w.app.Layer2Keeper.SetDapp(ctx, mk(qs, ctrl, "stored"))
+			content := &l2types.ProposalUpsertDapp{Sender: w.addrs[0].String(), Dapp: mk(qp, ctrl[:1], "taken over")}
+			gms := govkeeper.NewMsgServerImpl(gk)
+			m, err := govtypes.NewMsgSubmitProposal(w.addrs[0], "t", "d", content)
+			if err != nil {
+				setupErr = err.Error()
+				return
+			}
+			if err := withCache(ctx, func(c sdk.Context) error {
+				res, e := gms.SubmitProposal(sdk.WrapSDKContext(c), m)
+				if e == nil {
+					pid = res.ProposalID
+				}
+				return e
+			}); err != nil {
+				setupErr = err.Error()
+				return
+			}
+			for i := 0; i < v; i++ {
+				if err := withCache(ctx, func(c sdk.Context) error {
+					_, e := gms.VoteProposal(sdk.WrapSDKContext(c), govtypes.NewMsgVoteProposal(pid, w.addrs[i], govtypes.OptionYes, sdk.ZeroDec()))
+					return e
+				}); err != nil {
+					setupErr = fmt.Sprintf("vote of controller %d: %v", i, err)
+				}
+			}
+		}})
+		if br.Panicked != nil || setupErr != "" || pid == 0 {
+			r.Count("dapp-electorate:setup-failed")
+			r.Notes = append(r.Notes, label+": set-up failed: "+setupErr+fmt.Sprint(br.Panicked))
+			continue
+		}
+		w.ApplyUpdates(br.Updates)
+		result := govtypes.Pending
+		halted := false
+		for b := 0; b < 6 && result == govtypes.Pending; b++ {
+			dt := 6 * time.Second
+			if b == 0 {
+				dt = 601 * time.Second
+			}
+			br := w.Block(nil, BlockOpts{Dt: dt})
+			if br.Panicked != nil {
+				halted = true
+				break
+			}
+			w.ApplyUpdates(br.Updates)
+			if p, ok := w.app.CustomGovKeeper.GetProposal(w.ReadCtx(), pid); ok {
+				result = p.Result
+			}
+		}
+		var accs []string
+		for i := 0; i < n; i++ {
+			accs = append(accs, fmt.Sprint(i))
+		}
+		out := resName(result)
+		if halted {
+			out = "panic"
+		}
+		r.Op(fmt.Sprintf("gov local-tally q=%s accs=%s role=- y=%d n=0 a=0 v=0 o=0", qs, strings.Join(accs, ","), v), out)
+		r.Count("dapp-electorate:" + out)
+		r.Case(fmt.Sprintf("dapp-electorate/%d/%s/%s/%d/%s", n, qs, qp, v, out), true)
+		if halted {
+			continue
+		}
+		// a proposal that did not pass never changes the dApp
+		for b := 0; b < 4; b++ {
+			dt := 6 * time.Second
+			if b == 0 {
+				dt = 301 * time.Second
+			}
+			br := w.Block(nil, BlockOpts{Dt: dt})
+			if br.Panicked != nil {
+				break
+			}
+			w.ApplyUpdates(br.Updates)
+		}
+		d := w.app.Layer2Keeper.GetDapp(w.ReadCtx(), name)
+		if result == govtypes.QuorumNotReached && (d.Description != "stored" || !d.VoteQuorum.Equal(sdk.MustNewDecFromStr(qs)) || len(d.Controllers.Whitelist.Addresses) != n) {
+			r.Fail("C08/dapp-electorate/applied-without-passing", fmt.Sprintf("%s: quorum not reached; the dApp reads %q, quorum %s, %d controllers", label, d.Description, d.VoteQuorum, len(d.Controllers.Whitelist.Addresses)), nil)
 		}
 	}
 }
